@@ -233,7 +233,7 @@ def check_invariants(ctx, step, circ, m, what):
             ctx.violate("J2_node_op", step, f"node {n}: graph op {sp} model {m.spec[n]}", sig)
             return False
         for (t, r) in gq.qregs(sp):
-            if n not in m.wires[(t, r)]:
+            if n not in m.wires.get((t, r), []):
                 ctx.violate("J2_op_off_wire", step, f"node {n} {sp} not on wire {t}{r}", sig)
                 return False
         regs_of_node = [(t, r) for (t, r), w in m.wires.items() if n in w]
